@@ -1,3 +1,4 @@
 import SC.Audit
 import SC.Properties.C11
+import SC.Properties.Src.C11
 #audit C11
